@@ -56,9 +56,9 @@ package udp
 //@ func NewPacketFiller
 //@   props C05 C01 C02 C11 C17 C19 C07 C13
 //@   observe o
-//@   entry row init:  [] -> loop 0
-//@   loop 0 row apply: [call o(bind_x)] when fresh(x) -> continue
-//@   loop 0 row done:  [] when fresh(ret) -> exit
+//@   entry row init:  [] when f.ttl == 64 && f.proto == 17 && f.flags == 2 && f.length == 0 && len(f.payload) == 0 && !f.vpnMode -> loop 0
+//@   loop 0 row apply: [call o(bind_x)] when x == f -> continue
+//@   loop 0 row done:  [] when fresh(ret) && ret == f -> exit
 
 // C06 / C03: replies to UDP probes are ICMP messages: the method uses the ICMP processor (with this scan's name)
 //@ func NewScanMethod
